@@ -265,13 +265,16 @@ Proof. split; [reflexivity|]. split; [vm_compute; reflexivity|]. eexists. vm_com
     - [C04_map_errors_characterised]: which stage failed, exactly;
     - [C04_map_run_total_tokens]: constructor, trackers and profiler having
       succeeded with a profile whose type keys are renderable, the shapes are
-      produced for every threshold and every algebra -- provided disjunctions
-      are disabled (the default) or empty shapes are kept;
-    - [C04_choice_prune_run_refuted] (finding C04-F1): both switched the other
-      way, a label whose node has no triples makes the run raise TypeError.
+      produced for every threshold and every algebra -- whatever the options
+      once ClassShexer removes the empty shapes before the merges
+      ([c_clean_before_merge = true]: notes/proposed_fixes/C04-choice-prune.diff),
+      before that provided disjunctions are disabled (the default) or empty
+      shapes are kept;
+    - [C04_choice_prune_run_refuted] (finding C04-F1, old order): both switched
+      the other way, a label whose node has no triples makes the run raise TypeError.
       The real Shaper raises the same exception on this input (pinned
       reproducer); the hypothesis of the theorem above is therefore needed. *)
-From Shexer Require Import Model.RunMap Proofs.RunMapProofs Proofs.RunMapWitness.
+From Shexer Require Import Model.ShexingFix Model.RunMap Proofs.RunMapProofs Proofs.RunMapWitness.
 From Shexer Require Model.Selectors.
 
 Theorem C04_map_errors_characterised : forall fa c orc sp thr g e,
@@ -280,7 +283,7 @@ Proof. exact run_shapes_map_err_iff. Qed.
 Print Assumptions C04_map_errors_characterised.
 
 Theorem C04_map_run_total_tokens : forall fa c orc sp thr g I targets P C ID,
-  r_disable_or c = true \/ r_remove_empty c = false ->
+  c_clean_before_merge = true \/ r_disable_or c = true \/ r_remove_empty c = false ->
   r_disable_or c && r_allow_redundant_or c = false ->
   Selectors.find_adequate_prefix (Selectors.sp_ns sp) <> None ->
   Selectors.run orc sp g = Selectors.OOk I ->
@@ -299,7 +302,7 @@ Theorem C04_map_failure_after_front : forall fa c orc sp thr g I targets P C ID 
   Selectors.find_adequate_prefix (Selectors.sp_ns sp) <> None ->
   run_shapes_map fa c orc sp thr g = inr e ->
   exists se, e = MERun (rerr_of_s se) /\
-             shex fa (scfg_map c sp (Selectors.ns_with_shapes orc sp)) thr P C = inr se.
+             shex_cur fa (scfg_map c sp (Selectors.ns_with_shapes orc sp)) thr P C = inr se.
 Proof. exact map_failure_after_front. Qed.
 Print Assumptions C04_map_failure_after_front.
 
@@ -311,6 +314,7 @@ Proof. eexists. vm_compute. reflexivity. Qed.
 (** C04-F1 on the run: a valid graph, a valid shape map, an accepted configuration
     (disable_or_statements=False, allow_redundant_or=True, remove_empty_shapes on) *)
 Lemma C04_choice_prune_run_refuted :
+  c_clean_before_merge = false ->
   exists c orc sp g thr I,
     r_disable_or c = false /\ r_remove_empty c = true /\
     Selectors.run orc sp g = Selectors.OOk I /\
@@ -319,7 +323,14 @@ Lemma C04_choice_prune_run_refuted :
     (* the same run with empty shapes kept succeeds *)
     (exists text, run_shexc_map BAlg (with_remove false c) orc sp thr g = inl text).
 Proof.
-  exists (with_or false true base_rcfg), m_orc, m_spec, m_graph, thr0. eexists.
-  split; [reflexivity|]. split; [reflexivity|]. split; [vm_compute; reflexivity|].
-  split; [vm_compute; reflexivity|]. split; [vm_compute; reflexivity|]. eexists. vm_compute. reflexivity.
+  flag_or ltac:(
+    exists (with_or false true base_rcfg), m_orc, m_spec, m_graph, thr0; eexists;
+    split; [reflexivity|]; split; [reflexivity|]; split; [vm_compute; reflexivity|];
+    split; [vm_compute; reflexivity|]; split; [vm_compute; reflexivity|]; eexists; vm_compute; reflexivity).
 Qed.
+
+(** once ClassShexer removes the empty shapes before the merges (C04-F1 repaired) the same run succeeds *)
+Example C04_choice_prune_run_fixed :
+  c_clean_before_merge = true ->
+  exists text, run_shexc_map BAlg (with_or false true base_rcfg) m_orc m_spec thr0 m_graph = inl text.
+Proof. intros E. exact (proj2 (m_choice_fixed E)). Qed.
